@@ -81,26 +81,29 @@ def san_summary(err):
     return (what + "@" + (loc.group(1).replace("asmjit/", "") if loc else "?"))       # no line number: keys must survive edits
 
 
-def run_resilient(ctx, mode, in_path, out_path, max_aborts=4):
-    """Run `funcabi <mode>` in the sanitizer build.  A sanitizer abort loses nothing: the aborting input is re-run in
-    the plain build to obtain its record, which is marked abort=<summary> (the specs reject it); after max_aborts the
-    rest of the batch runs in the plain build (recorded in the evidence)."""
+def run_resilient(ctx, mode, in_path, out_path, max_aborts=4, chunk=20000):
+    """Run `funcabi <mode>` in the sanitizer build, in chunks.  A sanitizer abort loses nothing: the aborting input is
+    re-run in the plain build to obtain its record, which is marked abort=<summary> (the specs reject it); after
+    max_aborts the rest runs in the plain build (recorded in the evidence)."""
     inputs = open(in_path).read().splitlines()
     n = len(inputs)
     bd_asan, bd_plain = ctx.build("asan", "funcabi"), ctx.build("plain", "funcabi")
     out, pos, aborts = [], 0, 0
+    tin, tout = ctx.path(f"_{mode}_part.in"), ctx.path(f"_{mode}_part.out")
     while pos < n:
-        tin, tout = ctx.path(f"_{mode}_part.in"), ctx.path(f"_{mode}_part.out")
-        open(tin, "w").write("\n".join(inputs[pos:]) + "\n")
+        end = min(n, pos + chunk)
+        open(tin, "w").write("\n".join(inputs[pos:end]) + "\n")
+        if os.path.exists(tout):
+            os.remove(tout)
         use_plain = aborts >= max_aborts
         rc, _, err = vlib.run_harness(ctx, bd_plain if use_plain else bd_asan, "funcabi", [mode, tin, tout], timeout=1800)
         got = [l for l in open(tout).read().splitlines() if l.startswith("{") and l.endswith("}")] if os.path.exists(tout) else []
         out += got
         pos += len(got)
-        if pos >= n:
-            break
-        if use_plain or rc in (0, 3):
-            raise Broken(f"funcabi {mode} stopped at input {pos} (rc={rc}): {err[-1200:]}")
+        if pos >= end:
+            continue
+        if use_plain or rc in (0, 3) or not ("runtime error" in err or "AddressSanitizer" in err or "LeakSanitizer" in err):
+            raise Broken(f"funcabi {mode} stopped at input {pos} (rc={rc}) without a sanitizer report: {err[-1200:]}")
         # sanitizer abort on inputs[pos]
         aborts += 1
         summ = san_summary(err)
@@ -229,7 +232,10 @@ def report_findings(ctx, groups, module, cfg, envname, what_of, sig_of, tag):
     todo = []
     for n, (key, items) in enumerate(sorted(groups.items())):
         items.sort(key=simplicity)
-        rp = ctx.path(f"finding_{tag}_{n}.ndjson")
+        # replay files live outside out/C06 (which every run, also a --replay run, wipes)
+        rdir = os.path.join(vlib.VERIF, "out", "C06.findings")
+        os.makedirs(rdir, exist_ok=True)
+        rp = os.path.join(rdir, re.sub(r"[^A-Za-z0-9_.-]+", "_", key)[:120] + ".ndjson")
         open(rp, "w").write(items[0][0] + "\n")
         todo.append((n, key, items, rp))
     with ThreadPoolExecutor(max_workers=12) as ex:
@@ -265,9 +271,9 @@ def leg_a(ctx, bdir):
         sigs += gen_signatures(ctx, "long", 32, True, False, simulate=30, depth=33)
     else:
         sigs += gen_signatures(ctx, "short", 2, False, False)
-        sigs += gen_signatures(ctx, "short3", 3, False, False, slim=True)
-        sigs += gen_signatures(ctx, "reduced4", 4, False, True)
-        sigs += gen_signatures(ctx, "long", 32, True, False, simulate=600, depth=33)
+        sigs += gen_signatures(ctx, "reduced3", 3, False, True)
+        sigs += gen_signatures(ctx, "reduced4", 4, False, True, slim=True)
+        sigs += gen_signatures(ctx, "long", 32, True, False, simulate=300, depth=33)
     uniq = {}
     for s in sigs:
         uniq.setdefault(json.dumps(s, sort_keys=True), s)
